@@ -523,58 +523,6 @@ CONFIG['C11'] = {'assumptions': ['form-field names, file-field names and file na
                   'at least one byte; the pipe as the byte string the goroutine writes); goroutine scheduling and resource release are C12',
                   'http.NewRequestWithContext keeps the body it is given (bytes.Buffer, or the reader wrapped in NopCloser)']}
 
-CONFIG['C03'] = {'assumptions': ['strings.TrimSpace / ToLower are modelled on ASCII; generated separators and padding are ASCII (non-ASCII bytes appear only inside '
-                 'string items)',
-                 'header values are fed as given (no OWS trimming by a wire parser); header names are tokens',
-                 'defaults are well typed and within the declared range (|integer default| < 2^53): an ill-typed default is not a declaration the '
-                 'description language allows',
-                 "unsigned integer formats (uint32, uint64 — go-openapi extensions outside the property's quantifier) are not generated: the "
-                 'validator answers 500 for negative values',
-                 'arrays of named string formats (uuid, email) are not generated: go-openapi/validate never validates item formats (it consults the '
-                 'parameter, not the items)'],
- 'exhaustive': 'the decision table {absent, empty, text} x required x allowEmptyValue x default is enumerated completely on every run for 12 scalar '
-               'kinds x 5 locations and for arrays of 11 kinds x {csv, pipes, multi} x {query, header, formData} (about 3400 cases, before the '
-               'random cases); everything else is sampled',
- 'go_entry': 'middleware.Serve + untyped API handler (stream H), middleware.UntypedRequestBinder.Bind (stream B)',
- 'model_fn': 'bind (getOK / splitByFormat / setFieldValue / setSliceFieldValue / validate)',
- 'partial': ['C03_holds_outside_known is stated for Decl.wf / Req.wf inputs (well-typed in-range defaults, multi only in query/formData, token '
-             'header names, one value per path parameter, strfmt graph in which the empty text unmarshals and named string types render as their '
-             'text); the driver tags every case outside it with !wf (only the deliberate multi-in-header/path declarations)',
-             'number values: accept/reject and the value are stated against the hand model of float rounding (parseFloatFor); no theorem about IEEE '
-             'rounding',
-             'registered string formats (strfmt) and declared validations (validate) are external: theorems are parametric in their graph; covered '
-             'by correspondence only',
-             'type: file parameters are not modelled',
-             'struct targets of UntypedRequestBinder.Bind are not exercised (map targets only)'],
- 'quick_n': 20000,
- 'rule': 'one declared non-body parameter x one request. Declarations: location {query, header, path, formData urlencoded, formData multipart} x '
-         '{integer int8/int16/int32/int64/none/unknown format, number float/double/none/unknown, boolean, string plain/unknown '
-         'format/date/byte/uuid/email, array of those with none/csv/ssv/tsv/pipes/multi (multi in header/path occasionally)} x required x '
-         'allowEmptyValue x well-typed default (scalar or array) x validations (min/max/enum on integers, minLength/maxLength/enum on strings, '
-         'minItems/maxItems/uniqueItems on arrays). Texts per declared type: boundary literals +-2^(w-1), +-1 and +-2 around them for the declared '
-         'and the other widths, signs, leading zeros, 0x.., 1_0, exponents, decimals, inf/Infinity/NaN in several cases, hex floats, float64/float32 '
-         'overflow and underflow edges, empty, white space, junk, non-ASCII digits; 1-3 repeated values; array values joined by the declared or '
-         'another separator with padding, empty items and trailing separators; the key sent in the declared case, upper, lower, canonical, random '
-         'case, or another key; key absent. 8 requests per declaration (12 thorough), 3 in 5 through the full API handler, 2 in 5 through '
-         'UntypedRequestBinder.Bind. A case is trivial only when the parameter is absent, optional, without default and without validations.',
- 'search_s': 60,
- 'thorough_n': 250000,
- 'thorough_seeds': 4,
- 'trusted_base': ['reading of the property text into the Lean `Spec` (human step, RtVerif/Model/<id>.lean)',
-                  'correspondence check (differential: Go harness /verif/harness -> protocol lines -> compiled Lean driver rtdriver evaluating Model '
-                  'and Spec); coverage bounded by the generators',
-                  "factgen (go/ast extraction of constants/tables into RtVerif/Gen/Facts.lean) and the driver's line parser",
-                  'strfmt (registered string formats): UnmarshalText of the registered Go type and Registry.Validates are EXTERNAL: the harness '
-                  'passes their graph on the texts of the case as an input column; the model decides when they are called and what is done with the '
-                  'result',
-                  'go-openapi/validate (parameter validator run after binding): hand model of the required-string rule, min/max, enum, '
-                  'minLength/maxLength, minItems/maxItems/uniqueItems; checked by correspondence only',
-                  'strconv.ParseFloat: the accept set is transcribed (Base.Num.floatLex); the float VALUE is a hand model (exact rational, '
-                  'round-half-even to float64, then to float32) validated bit-for-bit by correspondence, not proved',
-                  'net/http: header names are canonicalised when a request is read (modelled by canonHeader, ASCII), url.ParseQuery / ParseForm / '
-                  'multipart parsing deliver the values in order (the harness feeds encoded requests; stream B hand-built ones)',
-                  'reflect: Kind of the Go types typeForSchema returns; SetInt/SetFloat on values already checked by OverflowInt/OverflowFloat']}
-
 CONFIG['C09'] = {'assumptions': ['request bodies announce their length (ContentLength = len(body)); a stream of unknown length is first wrapped by runtime.HasBody '
                  'in a peeking reader on the request value it was given (C17), which is not modelled',
                  'every security scheme named by the spec has a registered authenticator (an alternative naming an unregistered scheme is C02)',
@@ -911,6 +859,110 @@ CONFIG['C10'] = {'assumptions': ['parameter names are brace-free and distinct (t
                   'case)',
                   'http.NewRequestWithContext is modelled as url.Parse of the string it is given (method and context are valid; removeEmptyPort acts '
                   'on a Host the runtime overwrites)']}
+
+CONFIG['C03'] = {'assumptions': ['strings.TrimSpace / ToLower are modelled on ASCII; generated separators and padding are ASCII (non-ASCII bytes appear only inside '
+                 'string items)',
+                 'header values are fed as given (no OWS trimming by a wire parser); header names are tokens',
+                 'defaults are well typed and within the declared range (|integer default| < 2^53): an ill-typed default is not a declaration the '
+                 'description language allows',
+                 "unsigned integer formats (uint32, uint64 — go-openapi extensions outside the property's quantifier) are not generated: the "
+                 'validator answers 500 for negative values',
+                 'arrays of named string formats (uuid, email) are not generated: go-openapi/validate never validates item formats (it consults the '
+                 'parameter, not the items)',
+                 'stream F: part names and file names are printable (no CR, LF, NUL, no "/"): mime/multipart.Writer escapes quotes and backslashes, '
+                 'Reader.ReadForm classifies a part with an empty filename as a text field, applies filepath.Base to file names and keeps the parts '
+                 'in order per name — stdlib behaviour the model takes as given (the harness compares the field name found in the '
+                 'Content-Disposition of the received header)',
+                 'stream F: a truncated body is cut by at least 3 bytes (the closing delimiter never survives); the content never contains the full '
+                 'boundary',
+                 'stream S: struct fields are built with reflect.StructOf (one exported field F) or taken from a fixed struct with unexported '
+                 'fields; defaults are values the field can hold (|integer default| <= 100, non-negative for unsigned fields)',
+                 "streams M/MB: parameter names are distinct up to case and free of dots; a parameter's values are sent under its own name (any case "
+                 'for headers) or under a key no parameter is declared with, so that the per-parameter views of the request are independent by '
+                 'construction; all formData parameters of an operation share one encoding; registered string formats are not used; every error of '
+                 "these requests is a 422 (which of several errors the API serves first depends on Go's map order: stream M compares only ran / "
+                 'rejected + status)'],
+ 'exhaustive': 'the decision table {absent, empty, text} x required x allowEmptyValue x default is enumerated completely on every run for 12 scalar '
+               'kinds x 5 locations and for arrays of 11 kinds x {csv, pipes, multi} x {query, header, formData} (about 3400 cases, before the '
+               'random cases); everything else is sampled; stream F: the file/text decision table (12 part situations x 3 types x required x 5 '
+               'request modes x 3 streams = 1080 cases) and one file of every length 0..96; stream S: the width-overflow table (5 integer formats x '
+               '10 integer field types x {plain, pointer, slice} x ~45 boundary literals = about 6400 cases) and the field-lookup table (8 field '
+               'types x 5 modes x 3 requests)',
+ 'go_entry': 'middleware.Serve + untyped API handler (streams H, F), middleware.UntypedRequestBinder.Bind into a map (streams B, FB) and into a '
+             'struct (streams S, FS); operations with several parameters: middleware.Serve (stream M), UntypedRequestBinder.Bind (stream MB)',
+ 'model_fn': 'bind (getOK / splitByFormat / setFieldValue / setSliceFieldValue / validate); bindFile / bindFormText (streams F*); bindInto '
+             '(setFieldValueT / setPtrT / setSliceFieldValueT / validateT / lookupField, stream S); bindAll / apiOut (the product of the single '
+             'binds, streams M/MB)',
+ 'partial': ['C03_holds_outside_known / C03S_holds_outside_known are stated for Decl.wf / Req.wf / Target.wf inputs (well-typed in-range defaults, '
+             'multi only in query/formData, token header names, one value per path parameter, strfmt graph in which the empty text unmarshals and '
+             'named string types render as their text; for struct targets: a field type that can hold the declared type, a default the field can '
+             'hold, no format float32); the driver tags every case outside them with !wf / unjudged',
+             'number values: accept/reject and the value are stated against the hand model of float rounding (parseFloatFor); no theorem about IEEE '
+             "rounding; a number bound into a struct field is read at the FIELD's float width; declared float into a float64 field is unjudged (no "
+             'value fixed by the text)',
+             'registered string formats (strfmt) and declared validations (validate) are external: theorems are parametric in their graph; covered '
+             'by correspondence only; for struct targets the range check of the validator (IsValueValidAgainstRange) is a hand model',
+             'type: file: the multipart parser is stdlib — the model is handed the parts (name, filename, content) in order; files above the 32 MB '
+             'memory limit (spooled to disk by mime/multipart) are not exercised; an Open() failure of a file header is not modelled',
+             'struct targets: field types that cannot hold the declared type are unjudged (only no-panic + agreement for iface/map/struct fields and '
+             'float into float64); an array parameter bound into a field that is not a slice, []*T fields, []byte for an integer array, an ill-typed '
+             "default for the field (an integer default for a bool field) and a default outside the field's range are NOT generated: reflect panics "
+             '/ silent truncation there are programming errors of the target, listed in the report'],
+ 'quick_n': 20000,
+ 'rule': 'one declared non-body parameter x one request. Declarations: location {query, header, path, formData urlencoded, formData multipart} x '
+         '{integer int8/int16/int32/int64/none/unknown format, number float/double/none/unknown, boolean, string plain/unknown '
+         'format/date/byte/uuid/email, array of those with none/csv/ssv/tsv/pipes/multi (multi in header/path occasionally)} x required x '
+         'allowEmptyValue x well-typed default (scalar or array) x validations (min/max/enum on integers, minLength/maxLength/enum on strings, '
+         'minItems/maxItems/uniqueItems on arrays). Texts per declared type: boundary literals +-2^(w-1), +-1 and +-2 around them for the declared '
+         'and the other widths, signs, leading zeros, 0x.., 1_0, exponents, decimals, inf/Infinity/NaN in several cases, hex floats, float64/float32 '
+         'overflow and underflow edges, empty, white space, junk, non-ASCII digits; 1-3 repeated values; array values joined by the declared or '
+         'another separator with padding, empty items and trailing separators; the key sent in the declared case, upper, lower, canonical, random '
+         'case, or another key; key absent. 8 requests per declaration (12 thorough), 3 in 5 through the full API handler, 2 in 5 through '
+         'UntypedRequestBinder.Bind. A case is trivial only when the parameter is absent, optional, without default and without validations. --- '
+         'Deepening, stream F/FB/FS (type: file and form requests part by part): one formData declaration {file, string, integer int32} x required x '
+         'request mode {multipart, urlencoded, truncated multipart, no body, JSON body} x a list of 0-5 parts (declared name, case variant, other '
+         'name; text part or file part with one of 12 file names incl. quotes, backslash, semicolons, non-ASCII; content of 0..5000 bytes over all '
+         '256 byte values with CRLF / dashes / boundary-prefix look-alikes); the decision table {missing, other name, one, text under the file name, '
+         'file under the text name, repeated file, repeated text, mixed, empty file} x type x required x mode x 3 streams completely on every run; '
+         'one file of EVERY length 0..96 (0..1100 thorough) through each of: full API handler, UntypedRequestBinder.Bind into a map, Bind into a '
+         'struct field runtime.File. Stream S (struct targets): the declarations of streams H/B bound through UntypedRequestBinder.Bind into '
+         'reflect.StructOf structs whose field is int/int8..int64/uint/uint8..uint64/float32/float64/bool/string/strfmt.Date/Base64/UUID/Email, *T '
+         'of those, []T of those (arrays), or interface{}/map/struct; field modes {exported, unexported, missing, lower-case key, key = declared '
+         'name}; width overflow table completely on every run: every integer format {int8,int16,int32,int64,none} x every integer field type (plain, '
+         'pointer, slice) x the boundary literals +-2^(w-1), 2^w, +-1 around, for every width, plus signs, absent, required, default; random cases '
+         'use boundary literals of the FIELD width half of the time. Streams M/MB (several parameters of one operation): 2-4 declared parameters '
+         'with distinct names, sorted, in mixed locations (query, header, path, formData), in two operations out of three at least TWO formData '
+         'parameters sharing one body (urlencoded twice as often as multipart), methods POST/PUT/PATCH/DELETE (DELETE twice as often) — GET too when '
+         'there is no formData parameter; kinds integer (all formats), number, boolean, string, arrays of those (csv/pipes/multi); required x '
+         'default x min/max; per parameter mostly accepted texts (so that most requests reach the handler), sometimes the boundary/junk texts of the '
+         'other streams, empty, repeated, absent, or sent under a key no parameter is declared with; 5 requests per operation (8 thorough); one in '
+         'three through the full API handler (handler ran with all values / rejected with a status), two in three through UntypedRequestBinder.Bind '
+         'with the per-parameter result read from the composite error independently of its order.',
+ 'search_s': 60,
+ 'thorough_n': 250000,
+ 'thorough_seeds': 4,
+ 'trusted_base': ['reading of the property text into the Lean `Spec` (human step, RtVerif/Model/<id>.lean)',
+                  'correspondence check (differential: Go harness /verif/harness -> protocol lines -> compiled Lean driver rtdriver evaluating Model '
+                  'and Spec); coverage bounded by the generators',
+                  "factgen (go/ast extraction of constants/tables into RtVerif/Gen/Facts.lean) and the driver's line parser",
+                  'strfmt (registered string formats): UnmarshalText of the registered Go type and Registry.Validates are EXTERNAL: the harness '
+                  'passes their graph on the texts of the case as an input column; the model decides when they are called and what is done with the '
+                  'result',
+                  'go-openapi/validate (parameter validator run after binding): hand model of the required-string rule, min/max, enum, '
+                  'minLength/maxLength, minItems/maxItems/uniqueItems; checked by correspondence only',
+                  'strconv.ParseFloat: the accept set is transcribed (Base.Num.floatLex); the float VALUE is a hand model (exact rational, '
+                  'round-half-even to float64, then to float32) validated bit-for-bit by correspondence, not proved',
+                  'net/http: header names are canonicalised when a request is read (modelled by canonHeader, ASCII), url.ParseQuery / ParseForm / '
+                  'multipart parsing deliver the values in order (the harness feeds encoded requests; stream B hand-built ones)',
+                  'reflect: Kind of the Go types typeForSchema returns; SetInt/SetFloat on values already checked by OverflowInt/OverflowFloat',
+                  'mime/multipart (Writer, Reader.ReadForm, FileHeader.Open) and net/http.ParseMultipartForm: the parts of a form request reach the '
+                  'binder in order, text fields in MultipartForm.Value, file parts in MultipartForm.File; a body without closing delimiter is a '
+                  'parse error',
+                  'go-openapi/validate on typed values of struct fields: typeValidator accepts the compatible field kinds; numberValidator range '
+                  'check (IsValueValidAgainstRange: int32 / int64 / float32 of the decimal rendering) hand-modelled as rangeFails; the one float64 '
+                  'value 2^128-2^103 (float32 overflow midpoint) is special-cased as observed',
+                  'reflect.Value.FieldByName (exact name), CanInterface (exported), SetInt/SetUint/SetFloat after the Overflow* tests, reflect.New '
+                  'for pointer fields']}
 
 # properties not claimed (with the reason) and hook commits in /repo (none so far: no hooks needed)
 # built but not yet claimed (with the reason shown in MANIFEST.not_applicable)
